@@ -1,0 +1,58 @@
+//go:build verif
+
+package testdrv
+
+// Contracts for the deductive verifier in /verif (govc). Comment-only.
+//
+// Ghost view of a port pair (C17): inOpen = in.isOpen, outOpen = out.isOpen,
+// listening = (Driver.rd != nil && !Driver.stopListening).
+
+//@ macro listening(d) = d.rd != nil && !d.stopListening
+
+// the per-driver filter in front of the user callback (C14): the message is handed on, unchanged and with
+// the same time stamp, unless its class is switched off
+//@ func (*in).Listen$2
+//@ requires onMsg != nil
+//@ modifies cb_log
+//@ ensures [P:C14] (typeOfB(len(m), m[0]) == midi.ActiveSenseMsg && !conf.ActiveSense) || (typeOfB(len(m), m[0]) == midi.TimingClockMsg && !conf.TimeCode) || (typeOfB(len(m), m[0]) == midi.SysExMsg && !conf.SysEx) ==> cb_n == old(cb_n)
+//@ ensures [P:C14] !((typeOfB(len(m), m[0]) == midi.ActiveSenseMsg && !conf.ActiveSense) || (typeOfB(len(m), m[0]) == midi.TimingClockMsg && !conf.TimeCode) || (typeOfB(len(m), m[0]) == midi.SysExMsg && !conf.SysEx)) ==> (cb_n == old(cb_n) + 1 && cb_fn(old(cb_n)) == onMsg && cb_len(old(cb_n), 0) == len(m) && cb_i32(old(cb_n), 1) == ms)
+//@ ensures [P:C14] cb_n == old(cb_n) + 1 ==> forall j int :: 0 <= j && j < len(m) ==> cb_byte(old(cb_n), 0, j) == m[j]
+
+// stop function: afterwards nothing is delivered
+//@ func (*in).Listen$1
+//@ requires f != nil && f.Driver != nil
+//@ modifies f.Driver.stopListening
+//@ ensures [P:C17] f.Driver.stopListening
+
+//@ func (*in).Listen
+//@ requires f.Driver != nil && onMsg != nil
+//@ modifies *f.Driver
+//@ ensures [P:C17] err == nil && listening(f.Driver)
+//@ ensures [P:C17] f.isOpen == old(f.isOpen)
+//@ ensures [H] f.Driver.rd.state == 0 && f.Driver.rd.statusByte == 0 && f.Driver.rd.HandleSysex == conf.SysEx && f.Driver.rd.OnMsg != nil && f.Driver.rd.SysExBufferSize >= 1
+
+//@ func (*in).Open
+//@ modifies f.isOpen
+//@ ensures [P:C17] f.isOpen && result == nil
+
+//@ func (*in).Close
+//@ modifies f.isOpen
+//@ ensures [P:C17] !f.isOpen && result == nil
+
+//@ func (*out).Open
+//@ modifies f.isOpen
+//@ ensures [P:C17] f.isOpen && result == nil
+
+//@ func (*out).Close
+//@ modifies f.isOpen
+//@ ensures [P:C17] !f.isOpen && result == nil
+
+//@ func (*out).Send
+//@ requires f.Driver != nil
+//@ requires listening(f.Driver) ==> readerInv(f.Driver.rd)
+//@ requires listening(f.Driver) ==> (int32(tdiff(f.Driver.now, f.Driver.last) / 1000000) >= 0 && f.Driver.rd.ts_ms + int32(tdiff(f.Driver.now, f.Driver.last) / 1000000) >= f.Driver.rd.ts_ms)
+//@ modifies *f.Driver, *f.Driver.rd, cb_log
+//@ ensures [P:C17] !f.isOpen ==> (result == drivers.ErrPortClosed && cb_n == old(cb_n))
+//@ ensures [P:C17] f.isOpen && !old(listening(f.Driver)) ==> (result == nil && cb_n == old(cb_n))
+//@ ensures [P:C17] f.isOpen && old(listening(f.Driver)) ==> result == nil
+//@ ensures [P:C17] f.isOpen == old(f.isOpen) && f.Driver.stopListening == old(f.Driver.stopListening)
